@@ -235,6 +235,41 @@ func checkBlindSafe(p blindP) (v *mc.Viol, res *blindRes) {
 
 // ---------- ordered pairs of (blind, context) ----------
 
+// ---- sequences: one key and one blind signed under several contexts / messages in a row.
+// Blind signing is a pure function: what was signed before must not matter. ----
+
+type seqP struct {
+	Seed  string `json:"seed"`
+	Blind string `json:"blind"`
+	Ctxs  []Ctx  `json:"contexts_in_order"`
+	Msg   string `json:"message"`
+}
+
+func checkSeq(p seqP) *mc.Viol {
+	seed, blind, msg := unhx(p.Seed), unhx(p.Blind), unhx(p.Msg)
+	priv := ed.NewKeyFromSeed(fresh(seed))
+	A := fresh(priv[32:])
+	for i, c := range p.Ctxs {
+		where := fmt.Sprintf("seed=%s blind=%s step %d of contexts %+v", p.Seed, p.Blind, i, p.Ctxs)
+		var sig []byte
+		var bk ed.PublicKey
+		var err error
+		if pn := mc.Catch(func() {
+			sig = ed.BlindKeySignWithContext(fresh(priv), fresh(msg), fresh(blind), c.bytes())
+			bk, err = ed.BlindPublicKeyWithContext(fresh(A), fresh(blind), c.bytes())
+		}); pn != "" {
+			return &mc.Viol{Sig: "BlindKeySignWithContext panics in a sequence of calls", What: where + ": " + pn}
+		}
+		if err != nil {
+			return &mc.Viol{Sig: "BlindPublicKeyWithContext fails in a sequence of calls", What: where + ": " + err.Error()}
+		}
+		if !stded.Verify(stded.PublicKey(bk), msg, sig) {
+			return &mc.Viol{Sig: "blinded signature depends on what was signed before (does not verify under the blinded key after an earlier call with another context)", What: where}
+		}
+	}
+	return nil
+}
+
 type pairP struct {
 	Seed   string `json:"seed_hex"`
 	Blind1 string `json:"blind1_hex"`
@@ -332,6 +367,11 @@ func main() {
 		v, _ := checkBlindSafe(p)
 		return v
 	})
+	r.RegisterReplay("seq", func(pj json.RawMessage) *mc.Viol {
+		var p seqP
+		json.Unmarshal(pj, &p)
+		return checkSeq(p)
+	})
 	r.RegisterReplay("pair", func(pj json.RawMessage) *mc.Viol {
 		var p pairP
 		json.Unmarshal(pj, &p)
@@ -393,6 +433,35 @@ func main() {
 	var msgs []string
 	for _, n := range msgLens {
 		msgs = append(msgs, hx(mc.Fill(r.Seed, fmt.Sprintf("c15-msg-%d", n), n)))
+	}
+
+	// --- sequences: every ordered sequence of length 2 and 3 over four contexts, for 2 seeds x 2 blinds ---
+	{
+		cs := []Ctx{ctxs[0], ctxs[2], ctxs[3], ctxs[4]}
+		var seqs []seqP
+		for si := 0; si < 2; si++ {
+			for bi := 0; bi < 2; bi++ {
+				for a := range cs {
+					for b := range cs {
+						seqs = append(seqs, seqP{Seed: hx(seeds[si]), Blind: hx(blinds[bi+3]), Ctxs: []Ctx{cs[a], cs[b]}, Msg: msgs[1]})
+						for c := range cs {
+							if th || (a+b+c)%2 == 0 {
+								seqs = append(seqs, seqP{Seed: hx(seeds[si]), Blind: hx(blinds[bi+3]), Ctxs: []Ctx{cs[a], cs[b], cs[c]}, Msg: msgs[1]})
+							}
+						}
+					}
+				}
+			}
+		}
+		// sequences run one after the other on one goroutine: they are about call order
+		for i := range seqs {
+			v := checkSeq(seqs[i])
+			if v != nil {
+				r.Violation("seq", seqs[i], v)
+			}
+			r.Case(fmt.Sprintf("seq-%d", i), true, map[bool]string{true: "sequence-ok", false: "sequence-violation"}[v == nil])
+		}
+		r.Set("call_sequences", len(seqs))
 	}
 
 	// --- tuples ---
